@@ -158,6 +158,7 @@ func runC05(a *A) {
 		allowed := map[string]string{
 			"(*stream.DataProcessor).Process":    "the single processing goroutine",
 			"(*stream.Stream).expandDataChannel": "migration of buffered rows into the larger channel, under the write lock",
+			"(*stream.Stream).Stop":              "discards what is still queued when the stream stops, under the write lock (each row counted as dropped: C19 flow/stop-drain-counted)",
 		}
 		n := 0
 		for _, fn := range a.ModFuncs {
